@@ -9,6 +9,7 @@
 -/
 import MW.Lemmas.Deepen4Removal
 import MW.Lemmas.Deepen4Keys
+import MW.Lemmas.Deepen4CredNodup
 namespace MW.Lemmas.Deepen4
 open MW MW.Model.Ledger MW.Model.Persist MW.Spec.Persist MW.Spec.Chain MW.Spec.Books MW.Lemmas.Ledger
   MW.Lemmas.PersistOp MW.Lemmas.PersistFault MW.Lemmas.PersistCrash MW.Lemmas.Deepen3 MW.Lemmas.ImportJoin
@@ -23,9 +24,10 @@ def Phase (cfg : Cfg) (G : Block) (x : SysQ) (k : SkelT) : Prop :=
 structure JT (cfg : Cfg) (G : Block) (x : SysQ) (k : SkelT) : Prop where
   short : ∀ c ∈ k.base.hist, c.length + cfg.batch < 2 ^ 64
   qsuf : x.queue <:+ k.queue
+  credN : KeysNodup x.P.led.credits
   phase : Phase cfg G x k
 
-/-- the one hypothesis on the STATE (not on the skeleton): C08's two open follower invariants at the moment
+/-- the one hypothesis on the STATE (not on the skeleton): C08's open follower invariant `pendOff` at the moment
     RemoveWallet is called -/
 def guardEv (_cfg : Cfg) (x : SysQ) : EvT → Prop
   | .removeMark _ => RemGuard x.P
@@ -105,11 +107,12 @@ theorem short_skStep (cfg : Cfg) (k : Skel) (e : EvQ) (h : ∀ c ∈ k.hist, c.l
 theorem JT_step {cfg : Cfg} {G : Block} (E : StaticOK cfg.st G) (hG : G.txs = []) (hb : cfg.batch > 0)
     (hl : cfg.limit > 0) (cr : Bool) {x : SysQ} {k : SkelT} (ev : EvT) (hJ : JT cfg G x k) (hok : StepOKT cfg G k ev) (hg : guardEv cfg x ev) :
     JT cfg G (stepT cfg cr x ev) (skStepT cfg k ev) := by
-  obtain ⟨hshort, hqs, hph⟩ := hJ
+  obtain ⟨hshort, hqs, hcn, hph⟩ := hJ
+  have hcn' := credNodup_stepT cfg cr x ev hcn
   cases ev with
   | q e =>
     obtain ⟨hS, hsh, hwin⟩ := hok
-    refine ⟨short_skStep cfg k.base e hshort hsh, qsuf_stepQ cfg.st cfg.n cr x k.queue e hqs, ?_⟩
+    refine ⟨short_skStep cfg k.base e hshort hsh, qsuf_stepQ cfg.st cfg.n cr x k.queue e hqs, hcn', ?_⟩
     unfold Phase at hph ⊢
     show match k.busy with
       | none => JQ cfg.st G (stepQ cfg.st cfg.n cr x e) (skStep cfg.st k.base e)
@@ -157,14 +160,14 @@ theorem JT_step {cfg : Cfg} {G : Block} (E : StaticOK cfg.st G) (hG : G.txs = []
   | importStart w r =>
     obtain ⟨hbusy, hfresh, hne, hKN, hval⟩ := hok
     have hq : (stepT cfg cr x (.importStart w r)).queue = x.queue := rfl
-    refine ⟨hshort, by rw [hq]; exact hqs, ?_⟩
+    refine ⟨hshort, by rw [hq]; exact hqs, hcn', ?_⟩
     unfold Phase at hph ⊢
     rw [hbusy] at hph
     exact JQ_importStart (cr := cr) hG w r hph hfresh hne hKN hval
   | importStep w =>
     have hbusy : k.busy = some (.imp w) := hok
     have hq := stepT_queue cfg cr x (.importStep w)
-    refine ⟨hshort, by rw [hq]; exact hqs, ?_⟩
+    refine ⟨hshort, by rw [hq]; exact hqs, hcn', ?_⟩
     unfold Phase at hph ⊢
     show match k.busy with
       | none => JQ cfg.st G (stepT cfg cr x (.importStep w)) k.base
@@ -175,16 +178,16 @@ theorem JT_step {cfg : Cfg} {G : Block} (E : StaticOK cfg.st G) (hG : G.txs = []
   | removeMark w =>
     obtain ⟨hbusy, ⟨r, hr, hrne⟩, hoth⟩ := hok
     have hq : (stepT cfg cr x (.removeMark w)).queue = x.queue := rfl
-    refine ⟨hshort, by rw [hq]; exact hqs, ?_⟩
+    refine ⟨hshort, by rw [hq]; exact hqs, hcn', ?_⟩
     unfold Phase at hph ⊢
     rw [hbusy] at hph
     have hJQ : JQ cfg.st G x k.base := hph
     exact Or.inl (JQ_removeMark (k := k.base) cr w hJQ (by rw [hr]; rfl)
-      (fun r' hr' => by rw [hr] at hr'; cases hr'; exact hrne) hoth hg)
+      (fun r' hr' => by rw [hr] at hr'; cases hr'; exact hrne) hoth hcn hg)
   | removeStep w =>
     have hbusy : k.busy = some (.rem w) := hok
     have hq := stepT_queue cfg cr x (.removeStep w)
-    refine ⟨hshort, by rw [hq]; exact hqs, ?_⟩
+    refine ⟨hshort, by rw [hq]; exact hqs, hcn', ?_⟩
     unfold Phase at hph ⊢
     show match k.busy with
       | none => JQ cfg.st G (stepT cfg cr x (.removeStep w)) k.base
@@ -196,14 +199,14 @@ theorem JT_step {cfg : Cfg} {G : Block} (E : StaticOK cfg.st G) (hG : G.txs = []
     obtain ⟨hbusy, hkq, hfuel⟩ := hok
     have hq := stepT_queue cfg cr x (.importDrain w fuel)
     have hxq : x.queue = [] := by rw [hkq] at hqs; exact List.suffix_nil.1 hqs
-    refine ⟨hshort, by rw [hq]; exact hqs, ?_⟩
+    refine ⟨hshort, by rw [hq]; exact hqs, hcn', ?_⟩
     unfold Phase at hph ⊢
     rw [hbusy] at hph
     exact JI_drain E hb cr fuel hph hshort hxq hfuel
   | removeDrain w =>
     have hbusy : k.busy = some (.rem w) := hok
     have hq := stepT_queue cfg cr x (.removeDrain w)
-    refine ⟨hshort, by rw [hq]; exact hqs, ?_⟩
+    refine ⟨hshort, by rw [hq]; exact hqs, hcn', ?_⟩
     unfold Phase at hph ⊢
     rw [hbusy] at hph
     exact JR_removeDrain hl cr hph
